@@ -21,11 +21,12 @@ Local Open Scope N_scope.
 Record Variant := mkVariant {
   clear_resets_generation : bool;   (* TranspositionTable::clear() sets generation = 0 *)
   clear_clears_evalcache  : bool;   (* the Clear Hash listener empties EvalHashTables::evalHash *)
-  evalkey_has_contempt    : bool    (* Evaluate::evalPos mixes whiteContempt into the cache key *)
+  evalkey_has_contempt    : bool;   (* Evaluate::evalPos mixes whiteContempt into the cache key *)
+  tbabort_drops_tb        : bool    (* updateTB uninstalls a partially generated tablebase (fix of F4) *)
 }.
 
-Definition current_code : Variant := mkVariant false false false.
-Definition fixed_code   : Variant := mkVariant true true false.
+Definition current_code : Variant := mkVariant false false false false.
+Definition fixed_code   : Variant := mkVariant true true false false.
 
 (** * Sparse maps N -> A with a default (absent = default) *)
 Section SMap.
@@ -202,10 +203,12 @@ Definition tt_probe (t : TT) (key : N) : TT * option Entry :=
 (** [updateTB], control part.  [kind = None]: position not suitable (more than 4 men or
     pawns); [Some cls]: suitable, material class [cls].  [genOK]: the generator ran to
     completion; [maxTAfter]: value of maxTimeMillis when a failed generation returns.
+    A partially generated table that stays installed (finding F4 of C12) is class 0: what
+    probeDTM answers on it is garbage; here it never counts as a hit.
     Returns the table and the new value of the function-local static [requiredTime]. *)
 Definition tbBytes : N := 5 * 1024 * 1024.
-Definition tt_updateTB (t : TT) (requiredTime : Z) (kind : option N) (maxT : Z) (genOK : bool)
-           (maxTAfter : Z) : TT * Z :=
+Definition tt_updateTB (abort_drops : bool) (t : TT) (requiredTime : Z) (kind : option N) (maxT : Z)
+           (genOK : bool) (maxTAfter : Z) : TT * Z :=
   match kind with
   | None =>
       match tbResident t with
@@ -227,7 +230,9 @@ Definition tt_updateTB (t : TT) (requiredTime : Z) (kind : option N) (maxT : Z) 
         (mkTT (slots t) (generation t) (tableSize t) (tableSize t - tbBytes / 16) (Some cls) 0%Z
               (contemptHash t), requiredTime)
       else
-        (mkTT (slots t) (generation t) (tableSize t) (usedSize t) (Some cls) (notUsedCnt t) (contemptHash t),
+        ((if abort_drops
+          then mkTT (slots t) (generation t) (tableSize t) (tableSize t) None 0%Z (contemptHash t)
+          else mkTT (slots t) (generation t) (tableSize t) (usedSize t) (Some 0) (notUsedCnt t) (contemptHash t)),
          if (maxTAfter =? 0)%Z then requiredTime else (Z.max maxTAfter requiredTime * 2)%Z)
   end.
 
